@@ -66,7 +66,7 @@ def _wargs(w):
     return out
 
 
-def search(pid, cfg, failure, repo, seed, extra=()):
+def search(pid, cfg, failure, repo, seed, extra=(), iters=None):
     name = cfg.get("replay")
     if not name:
         return {"found": False, "reason": "no searcher for this property"}
@@ -74,8 +74,11 @@ def search(pid, cfg, failure, repo, seed, extra=()):
     if exe is None:
         return {"found": False, "reason": err}
     try:
+        env = dict(os.environ)
+        if iters:
+            env["VERIF_SEARCH_ITERS"] = str(iters)
         p = subprocess.run([exe, "search", pid, str(seed)] + list(extra), stdout=subprocess.PIPE, stderr=subprocess.PIPE,
-                           universal_newlines=True, timeout=600)
+                           universal_newlines=True, timeout=900, env=env)
     except subprocess.TimeoutExpired:
         return {"found": False, "reason": "search timed out"}
     if p.returncode != 0 and "WITNESS" not in p.stdout:
